@@ -2156,8 +2156,8 @@ m("C08", "identifier-prefix-unmangled", C,
   'return "__{}_{}".format(prefix, mangle(suffix or id(prefix)))')
 
 m("C12", "allocator-without-arguments", "utils.py",
-  "            inst = cls.__new__(new, *exc.args)",
-  "            inst = cls.__new__(new)")
+  "            inst = allocator(new, *exc.args)",
+  "            inst = allocator(new)")
 
 for _p in ("C10", "C07"):
     m(_p, "translate-offered-none", C,
@@ -2462,3 +2462,34 @@ m("C15", "constants-named-by-address", "zpt/template.py",
         # a plain constant is its own name, in every process
         return repr(value)
 ''', '')
+
+
+# ---- fix 2348a9c: the fallback allocator is found past the classes made here
+m("C12", "allocator-of-the-wrapper", "utils.py",
+  """            allocator = next(
+                k.__new__ for k in cls.__mro__
+                if '_original__str__' not in k.__dict__
+            )
+            inst = allocator(new, *exc.args)""",
+  """            inst = cls.__new__(new, *exc.args)""")
+m("C12", "refactor-allocator-loop", "utils.py",
+  """            allocator = next(
+                k.__new__ for k in cls.__mro__
+                if '_original__str__' not in k.__dict__
+            )
+            inst = allocator(new, *exc.args)""",
+  """            alloc = next(
+                klass.__new__ for klass in cls.__mro__
+                if '_original__str__' not in klass.__dict__)
+            inst = alloc(new, *exc.args)""", expect="silent")
+m("C12", "fallback-try-merged", "utils.py",
+  """        except TypeError:
+            new = cls
+
+        inst: BaseException
+        try:
+            inst = BaseException.__new__(new)
+        except TypeError:""",
+  """            inst: BaseException = BaseException.__new__(new)
+        except TypeError:
+            new = cls""")
